@@ -3,7 +3,7 @@
 use anyhow::{Context, Result};
 use clap::{Subcommand, ValueEnum};
 use std::fs;
-use std::path::Path;
+use std::path::{Component, Path, PathBuf};
 use wow_mpq::{
     Archive, ArchiveBuilder, FormatVersion, PatchChain, RebuildOptions,
     compare_archives as mpq_compare_archives,
@@ -822,13 +822,18 @@ fn extract_files_with_options(options: ExtractOptions) -> Result<()> {
 
             match data_result {
                 Ok(data) => {
-                    let output_path = if preserve_paths {
-                        let system_path = mpq_path_to_system(&file);
-                        Path::new(&output_dir).join(system_path)
-                    } else {
-                        let system_path = mpq_path_to_system(&file);
-                        let filename = Path::new(&system_path).file_name().unwrap_or_default();
-                        Path::new(&output_dir).join(filename)
+                    let output_path = match contained_output_path(
+                        Path::new(&output_dir),
+                        &file,
+                        preserve_paths,
+                    ) {
+                        Ok(path) => path,
+                        Err(e) => {
+                            log::warn!("Failed to extract {file}: {e}");
+                            error_count += 1;
+                            pb.inc(1);
+                            continue;
+                        }
                     };
 
                     if let Some(parent) = output_path.parent() {
@@ -900,16 +905,16 @@ fn extract_files_with_options(options: ExtractOptions) -> Result<()> {
 
             match chain.read_file(file) {
                 Ok(data) => {
-                    let output_path = if preserve_paths {
-                        // Convert MPQ path separators to system path separators
-                        let system_path = mpq_path_to_system(file);
-                        Path::new(&output_dir).join(system_path)
-                    } else {
-                        // Convert MPQ path to system path, then extract just the filename
-                        let system_path = mpq_path_to_system(file);
-                        let filename = Path::new(&system_path).file_name().unwrap_or_default();
-                        Path::new(&output_dir).join(filename)
-                    };
+                    let output_path =
+                        match contained_output_path(Path::new(&output_dir), file, preserve_paths) {
+                            Ok(path) => path,
+                            Err(e) => {
+                                log::warn!("Failed to extract {file}: {e}");
+                                error_count += 1;
+                                pb.inc(1);
+                                continue;
+                            }
+                        };
 
                     if let Some(parent) = output_path.parent() {
                         fs::create_dir_all(parent)?;
@@ -2468,4 +2473,34 @@ fn visualize_patch_chain(base: &str, patches: Vec<String>, detailed: bool) -> Re
     }
 
     Ok(())
+}
+
+/// Build the path below `output_dir` that an archive entry is extracted to.
+///
+/// Archive names are untrusted: with `--preserve-paths` the name is taken apart
+/// component by component (after converting MPQ separators), and a name with a
+/// parent (`..`), root or drive-prefix component is refused, because joining it
+/// would place the file outside the output directory.
+fn contained_output_path(output_dir: &Path, name: &str, preserve_paths: bool) -> Result<PathBuf> {
+    let system_path = mpq_path_to_system(name);
+    let system_path = Path::new(&system_path);
+
+    if !preserve_paths {
+        let filename = system_path.file_name().unwrap_or_default();
+        return Ok(output_dir.join(filename));
+    }
+
+    let mut output_path = output_dir.to_path_buf();
+    for component in system_path.components() {
+        match component {
+            Component::Normal(part) => output_path.push(part),
+            Component::CurDir => {}
+            Component::ParentDir | Component::RootDir | Component::Prefix(_) => {
+                anyhow::bail!(
+                    "refusing to extract '{name}': its path would leave the output directory"
+                );
+            }
+        }
+    }
+    Ok(output_path)
 }
